@@ -332,7 +332,7 @@ def Schema.wf : Schema → Bool
   | .uint max => decide (max < 2 ^ 64)
   | .bytes l => l.ok
   | .fixed encN decN l => encN == decN && l.ok && decide (encN ≤ l.enc)
-  | .array l e => l.ok && e.wf
+  | .array l e => l.ok && e.wf && (match e with | .tuple _ _ _ => true | _ => false)
   | .tuple encN decN fs => encN == decN && decide (encN < 2 ^ 64) && fs.wf
   | .tcons h t => h.wf && t.wf
   | .nullable s => s.wf && (match s with | .tuple _ _ _ => true | _ => false)
@@ -380,13 +380,13 @@ def Zstd.decode (z : Zstd) (s : Schema) (c : Bytes) : Except Err (Value × Bytes
 end F3.Cbor
 
 namespace F3.Cbor
-/-! ### allocation bound used by the property oracle (runtime behaviour; not covered by a theorem)
+/-! ### sizes used by the allocation bound
 
 `memSize` is the in-memory size of the Go value a schema describes (checked against `unsafe.Sizeof` by
 the driver); `staticPrealloc` sums, over every node of the schema once, the largest buffer the decoder
 may allocate for it *before* the corresponding input has been read (`make([]T, extra)` after the limit
-check). A decoder that checks limits first allocates at most
-`allocFactor * input length + staticPrealloc + allocSlack` bytes. -/
+check). `allocReq_le` (F3.Proofs.CodecAlloc) proves: the model decoder requests at most
+`allocPerByte * input length + staticPrealloc` bytes on any input; the oracle adds `allocSlack`. -/
 
 def Schema.memSize : Schema → Nat
   | .uint _ => 8
@@ -416,10 +416,7 @@ def Schema.staticPrealloc : Schema → Nat
   | .nullAsEmpty s => 8 * (match s with | .array l _ => l.tag | _ => 0) + 64 + s.staticPrealloc
   | _ => 0
 
-def allocFactor : Nat := 6
 def allocSlack : Nat := 65536
-def Schema.allocBound (s : Schema) (inputLen : Nat) : Nat :=
-  allocFactor * inputLen + s.staticPrealloc + allocSlack
 
 end F3.Cbor
 
@@ -456,5 +453,85 @@ def Value.within : Schema → Value → Bool
   | .nullable s, v => Value.within s v
   | .nullAsEmpty s, v => Value.within s v
   | _, _ => false
+
+end F3.Cbor
+
+namespace F3.Cbor
+open F3.Codec
+/-! ### allocation requests of the decoder (model of the `make` calls of the generated code)
+
+`allocReq s b` = number of bytes the generated `UnmarshalCBOR` asks the allocator for while it
+processes input `b` — on accepted *and* on rejected input. Every `make([]byte, extra)` /
+`make([]T, extra)` of the generated code comes after the limit check on `extra`; leaf library codecs
+(CID, big.Int, bit field) copy their payload at most twice. Scalars and fixed arrays are decoded in
+place. -/
+
+/-- requests made while decoding up to `n` elements in sequence (stops at the first failing element) -/
+def allocN (a : Bytes → Nat) (dec : Bytes → Except Err (Value × Bytes)) : Nat → Bytes → Nat
+  | 0, _ => 0
+  | n + 1, b => a b + (match dec b with
+                       | .ok (_, r) => allocN a dec n r
+                       | .error _ => 0)
+
+def allocReq : Schema → Bytes → Nat
+  | .bytes l, b =>
+    match readHdr b with
+    | .ok (maj, n, _) => if n > l.dec ∨ maj ≠ 2 then 0 else n
+    | .error _ => 0
+  | .cid, b =>
+    match readHdr b with
+    | .ok (maj, n, r) =>
+      if maj ≠ 6 ∨ n ≠ 42 then 0 else
+      match readHdr r with
+      | .ok (maj2, n2, _) => if maj2 ≠ 2 ∨ n2 > 512 then 0 else 2 * n2
+      | .error _ => 0
+    | .error _ => 0
+  | .bigint, b =>
+    match readHdr b with
+    | .ok (maj, n, _) => if maj ≠ 2 ∨ n > 128 then 0 else 2 * n
+    | .error _ => 0
+  | .bitfield, b =>
+    match readHdr b with
+    | .ok (maj, n, _) => if n > 32768 ∨ maj ≠ 2 then 0 else n
+    | .error _ => 0
+  | .array l e, b =>
+    match readHdr b with
+    | .ok (maj, n, r) => if n > l.dec ∨ maj ≠ 4 then 0 else n * e.memSize + allocN (allocReq e) (decode e) n r
+    | .error _ => 0
+  | .tuple _ decN fs, b =>
+    match readHdr b with
+    | .ok (maj, n, r) => if maj ≠ 4 ∨ n ≠ decN then 0 else allocReq fs r
+    | .error _ => 0
+  | .tcons h t, b =>
+    allocReq h b + (match decode h b with
+                    | .ok (_, r) => allocReq t r
+                    | .error _ => 0)
+  | .nullable s, b =>
+    match b with
+    | [] => 0
+    | x :: _ => if x = 246 then 0 else s.memSize + allocReq s b
+  | .nullAsEmpty s, b =>
+    match b with
+    | [] => 0
+    | x :: _ =>
+      if x = 246 then 0 else
+      -- the ECChain object, the `[]*TipSet` of the decoded length, and the legacy slice itself
+      64 + 8 * (match decode s b with | .ok (v, _) => v.len | .error _ => 0) + allocReq s b
+  | _, _ => 0
+
+/-- bytes requested per byte of input that is actually consumed: every element of a slice and every
+pointer target costs its in-memory size and consumes at least one byte (its array head) -/
+def Schema.allocPerByte : Schema → Nat
+  | .array _ e => e.memSize + e.allocPerByte
+  | .tuple _ _ fs => fs.allocPerByte
+  | .tcons h t => max h.allocPerByte t.allocPerByte
+  | .nullable s => s.memSize + s.allocPerByte
+  | .nullAsEmpty s => 72 + s.allocPerByte
+  | _ => 2
+
+/-- the oracle's bound on what the Go decoder may allocate for an input of the given length:
+`allocReq_le` (proved) plus a constant for readers, error values and allocator rounding -/
+def Schema.allocBound (s : Schema) (inputLen : Nat) : Nat :=
+  s.allocPerByte * inputLen + s.staticPrealloc + allocSlack
 
 end F3.Cbor
